@@ -207,52 +207,68 @@ def pertLeaf (eps : B) (kind : String) (x : List B) (j : Nat) (t : B) : List B :
 def setNth (env : List (List B)) (i : Nat) (v : List B) : List (List B) :=
   (List.range env.length).map fun n => if n == i then v else env.getD n []
 
+/-- project the quaternion block of a stored group element onto the unit sphere (inputs are unit only to 1 ulp; without
+this the conj-based inverse in the chart would turn `(‖q‖²−1)·‖t‖` into a spurious first-order term) -/
+def normG (g : Grp) (Y : List B) : List B :=
+  let o := match g with | .SO3 | .RxSO3 => 0 | .SE3 | .Sim3 => 3
+  let q := AD.qt Y o
+  let n := BigF.sqrt q.normSq
+  (List.range Y.length).map fun i => if o ≤ i && i < o + 4 then BigF.div (AD.nth Y i) n else AD.nth Y i
+
 /-- `<c, chart(out)>` -/
 def pairing (eps : B) (outkind : String) (c y0 y : List B) : B :=
   match grpOf outkind with
-  | .ok g => DVec.dot (headN g.adim c) (chartR g eps y0 y)
+  | .ok g => DVec.dot (headN g.adim c) (chartR g eps (normG g y0) (normG g y))
   | .error _ => DVec.dot c y
 
-/-- central difference with step `2^e`, Richardson-checked against step `2^(e+1)` -/
-def fdOne (F : B → B) (e : Int) : Option B :=
+/-- central difference with step `2^e` and its Richardson error estimate `4·|D_h − D_2h|` -/
+def fdEst (F : B → B) (e : Int) : B × B :=
   let h := hStep e
   let h2 := hStep (e + 1)
   let d1 := BigF.div (F h - F (BigF.neg h)) (two * h)
   let d2 := BigF.div (F h2 - F (BigF.neg h2)) (two * h2)
-  let sc := BigF.one + BigF.abs d1
-  if BigF.le (BigF.abs (d1 - d2)) (hStep (-50) * sc) then some d1 else none
+  (d1, BigF.ofNat 4 * BigF.abs (d1 - d2))
 
 /-- plain central difference with step `2^e` -/
 def fdPlain (F : B → B) (e : Int) : B :=
   let h := hStep e
   BigF.div (F h - F (BigF.neg h)) (two * h)
 
+/-- Reply: the `n` derivatives followed by `n` error bars.  An entry whose plain difference quotient (step 2⁻⁴⁰) agrees
+with the model's reverse sweep to 2⁻⁴⁶ relative is returned with that tiny difference as its error bar; every other entry
+gets the best of the Richardson-estimated quotients at steps 2⁻⁴⁰, 2⁻³⁰, 2⁻⁶⁰, 2⁻⁸⁰ with its own estimate (the harness adds
+the bar to its tolerance and skips entries whose bar is not small) — the reverse sweep never enters a returned value. -/
 def fdLeaf (eps : B) (p : Prog) (kinds : List String) (env : List (List B)) (c : List B) (outkind : String)
     (leaf : Nat) : Except String (List B) := do
+  -- the oracle is evaluated on the manifold: group leaves (unit only to 1 ulp in floating point) are projected onto exactly
+  -- unit quaternions first, otherwise the conj-based inverses inside the program turn (‖q‖²−1)·‖t‖/s into spurious terms
+  let env := (List.range env.length).map fun i =>
+    match grpOf (kinds.getD i "V") with
+    | .ok g => normG g (env.getD i [])
+    | .error _ => env.getD i []
   let kind := kinds.getD leaf "V"
   let x := env.getD leaf []
   let n := match grpOf kind with | .ok g => g.adim | .error _ => x.length
   let y0 := evalR eps env p
   let F := fun (j : Nat) (t : B) => pairing eps outkind c y0 (evalR eps (setNth env leaf (pertLeaf eps kind x j t)) p)
-  -- an independent computation of the same number: the model's reverse sweep.  Where the two agree to 2⁻³⁰ the
-  -- difference quotient is accepted as it is; otherwise it must pass the Richardson test at some step size.
   let bp := grad x.length leaf (backprop dJpure eps env p c)
   let mut out : List B := []
+  let mut bars : List B := []
   for j in List.range n do
     let d0 := fdPlain (F j) (-40)
-    if BigF.le (BigF.abs (d0 - AD.nth bp j)) (hStep (-30) * (BigF.one + BigF.abs d0)) then
+    let b := AD.nth bp j
+    if BigF.le (BigF.abs (d0 - b)) (hStep (-46) * (BigF.abs d0 + BigF.abs b) + hStep (-140)) then
       out := out ++ [d0]
+      bars := bars ++ [BigF.abs (d0 - b)]
     else
-    match fdOne (F j) (-40) with
-    | some d => out := out ++ [d]
-    | none =>
-      match fdOne (F j) (-80) with
-      | some d => out := out ++ [d]
-      | none =>
-        match fdOne (F j) (-120) with
-        | some d => out := out ++ [d]
-        | none => throw s!"fd-unstable:{j}"
-  return out
+      let mut best := fdEst (F j) (-40)
+      if !(BigF.le best.2 (hStep (-34) * BigF.abs best.1 + hStep (-140))) then
+        for e in [(-30 : Int), -60, -80] do
+          let cand := fdEst (F j) e
+          if BigF.lt cand.2 best.2 then best := cand
+      out := out ++ [best.1]
+      bars := bars ++ [best.2]
+  return out ++ bars
 
 /-- largest |entry| of any cotangent flowing through the reverse sweep (condition information only) -/
 def cotMax (dJ : DJ B) (eps : B) (env : List (List B)) : Prog → List B → B
